@@ -69,7 +69,9 @@ func newBareApp() (*c4eapp.App, c4eapp.GenesisState) {
 		}
 	}
 	app := c4eapp.New(log.NewNopLogger(), db, nil, true, map[int64]bool{}, c4eapp.DefaultNodeHome, period,
-		appparams.EncodingConfig(encoding), nodeOpts{crisis.FlagSkipGenesisInvariants: os.Getenv("VERIF_CRISIS_SKIP") == "1"})
+		appparams.EncodingConfig(encoding), nodeOpts{crisis.FlagSkipGenesisInvariants: os.Getenv("VERIF_CRISIS_SKIP") == "1",
+			// the operator's telemetry switch ([telemetry] enabled in app.toml): metrics must not cost gas or change results
+			"telemetry.enabled": os.Getenv("VERIF_TELEMETRY") == "1", "telemetry.service-name": "verif"})
 	return app, c4eapp.NewDefaultGenesisState(encoding.Marshaler)
 }
 
